@@ -12,7 +12,7 @@
    the command.  A failed comparison does not stop validation: a BAD line is
    printed (one per failed predicate), the model re-synchronises on the observed
    state and the rest of the trace is still checked.                             *)
-EXTENDS EggAbs, Json, IOUtils
+EXTENDS Extract, Json, IOUtils
 
 Rec == ndJsonDeserialize(IOEnv.TRACE)
 
@@ -62,6 +62,11 @@ Expect(w, c) ==
   ELSE IF c.k = "delete" THEN CmdDelete(w.rows, c)
   ELSE IF c.k = "run" THEN CmdRun(w.rows, c, w.active)
   ELSE IF c.k = "check" THEN CmdCheck(w.rows, c)
+  ELSE IF c.k = "extract" THEN      \* the argument is evaluated like an action (created if absent)
+    LET x == CmdIns(w.rows, c)
+        cls == LookG(x.rows, c.t)
+        mc == MinCost(x.rows)
+    IN [rows |-> x.rows, ok |-> (c.n > 0 \/ (cls \in DOMAIN mc /\ mc[cls] # Undef))]   \* variants of a class without a term: empty list
   ELSE IF c.k = "pop" THEN [rows |-> IF Len(w.stack) > 0 THEN w.stack[Len(w.stack)].rows ELSE w.rows, ok |-> Len(w.stack) > 0]
   ELSE IF c.k = "rule" THEN [rows |-> w.rows, ok |-> c.r \notin w.active]
   ELSE IF c.k = "fdecl" THEN [rows |-> w.rows, ok |-> c.f \notin w.declf]
@@ -81,6 +86,34 @@ After(w, c, ev, obs) ==
 
 Bad(code) == PrintT(<<"BAD", l, code>>)
 
+\* C07: what a successful (extract t [n]) returned, against the reference MinCost
+OutOf(ev, kind) == LET hit == {ev.outs[i] : i \in {j \in 1 .. Len(ev.outs) : ev.outs[j].k = kind}} IN
+                   IF hit = {} THEN [none |-> TRUE] ELSE CHOOSE o \in hit : TRUE
+JudgeExtract(ev, exp) ==
+  LET c == ev.c
+      R == exp.rows
+      cls == LookG(R, c.t)
+      mcAll == MinCost(R)
+      mc == mcAll[cls]
+      best == OutOf(ev, "extract")
+      vout == OutOf(ev, "variants")
+  IN /\ (c.n = 0 /\ Has(best, "none")) => Bad("extract-no-output")
+     /\ (c.n = 0 /\ ~Has(best, "none")) =>
+          LET e == EvalT(R, best.term) IN
+          /\ (best.costn > mc) => Bad("extract-cost-not-minimal")
+          /\ (best.costn < mc) => Bad("extract-cost-below-minimum")
+          /\ (e.v # cls) => Bad("extract-term-not-in-class")
+          /\ (e.v = cls /\ ~e.ok) => Bad("extract-uses-subsumed-or-unextractable-row")
+          /\ (e.v = cls /\ e.cost # best.costn) => Bad("extract-term-cost-differs-from-reported")
+     /\ (c.n > 0 /\ Has(vout, "none")) => Bad("extract-no-output")
+     /\ (c.n > 0 /\ ~Has(vout, "none")) =>
+          LET es == [k \in 1 .. Len(vout.terms) |-> EvalT(R, vout.terms[k])]
+              nusable == Cardinality({r \in R : Usable(r) /\ r.o = cls /\ RowCost(mcAll, r) # Undef})
+          IN /\ (\E k \in 1 .. Len(es) : es[k].v # cls) => Bad("variant-not-in-class")
+             /\ (\E k \in 1 .. Len(es) : es[k].v = cls /\ ~es[k].ok) => Bad("variant-uses-subsumed-or-unextractable-row")
+             /\ (\E j, k \in 1 .. Len(es) : j < k /\ es[j].root = es[k].root) => Bad("variants-share-a-root-enode")
+             /\ (Len(es) # (IF c.n < nusable THEN c.n ELSE nusable)) => Bad("variant-count")
+
 \* every failed predicate prints one BAD line; always TRUE.
 \* After a rule run that failed at run time the engine has consumed the matches of
 \* the failed iteration (their rules' last-run timestamps advanced) without
@@ -99,6 +132,7 @@ Judge(w, ev, exp, obs) ==
   /\ (cmpst /\ exact /\ exp.ok /\ ev.res = "ok" /\ ~IsWild(exp.rows) /\ obs # exp.rows) =>
         (Bad("state-mismatch") /\ PrintT(<<"DIFF", l, ToJson([missing |-> exp.rows \ obs, extra |-> obs \ exp.rows])>>))
   /\ (cmpst /\ ~exp.ok /\ ev.c.k \in {"check", "bad", "probe", "rule", "fdecl", "pop"} /\ obs # w.rows) => Bad("state-changed-by-rejected-command")
+  /\ (cmpst /\ ev.c.k = "extract" /\ exp.ok /\ ev.res = "ok") => JudgeExtract(ev, exp)
   /\ (cmpst /\ exact /\ ev.res = "ok" /\ ev.c.k = "run" /\ Has(ev, "upd") /\ exp.ok /\ ev.upd # (IF exp.upd THEN 1 ELSE 0)) => Bad("updated-flag")
 
 NoOther == [none |-> TRUE]
